@@ -4,7 +4,7 @@ import io
 
 from ..env import World
 from ..sched import Scheduler
-from ..transit_work import make_pair, hints_of, Result, link_of, FrameMITM, RecordingConsumer, Reader
+from ..transit_work import make_pair, hints_of, Result, link_of, FrameMITM, RecordingConsumer, QueueLikeConsumer, Reader
 
 PID = "C06"
 LEVEL = "fault_enumeration"
@@ -94,8 +94,10 @@ def run_case(spec):
     closed_by_app = [False, False]
 
     attached_alive = [False, False]
+    viol_early = []
     partial = [None, None]
     limit = [1 << 30, 1 << 30]
+    giveups = [rng.choice([0, 0, 1, 3]), rng.choice([0, 0, 1, 3])]
 
     def attach_consumer(d):
         rx = conns[1 - d]
@@ -109,7 +111,7 @@ def run_case(spec):
             consumers[d] = "file"
             dd = rx.writeToFile(f, total, hasher=h.update)
         else:
-            c = RecordingConsumer()
+            c = QueueLikeConsumer() if rng.random() < 0.2 else RecordingConsumer()
             consumers[d] = c
             if plans[d] and rng.random() < 0.4:
                 # a multi-part session: the consumer takes the first k records, the rest is read with
@@ -121,7 +123,7 @@ def run_case(spec):
             dd = rx.connectConsumer(c, expected=total)
         consumer_d[d] = Result(dd) if dd is not None else None
     for d in (0, 1):
-        readers[d] = Reader(conns[1 - d])
+        readers[d] = Reader(conns[1 - d], retry_from_errback=rng.choice([0, 0, 1, 2]))
         if modes[d] == "early":
             for _ in plans[d]:
                 readers[d].read()
@@ -139,6 +141,12 @@ def run_case(spec):
                     acts.append((("app", "send", d), snd))
                 if modes[d] == "interleaved" and len(readers[d].got) + readers[d].pending + len(readers[d].errors) < len(plans[d]):
                     acts.append((("app", "read", d), readers[d].read))
+                if modes[d] in ("interleaved", "early") and giveups[d] > 0 and any(not o[1] for o in readers[d].open):
+                    def gu(d=d):
+                        giveups[d] -= 1
+                        if readers[d].give_up_one() and modes[d] == "early":
+                            readers[d].read()        # the application still wants every record: it asks again
+                    acts.append((("app", "read-timeout", d), gu))
                 if modes[d] == "consumer-late" and consumers[d] is None and sent[d] >= len(plans[d]) // 2:
                     acts.append((("app", "attach", d), lambda d=d: attach_consumer(d)))
             return acts
@@ -181,13 +189,30 @@ def run_case(spec):
     state_before_close = [c.state for c in conns]
     lose_before_close = [len(link.ends[end0 if i == 0 else 1 - end0].lose_calls) for i in (0, 1)]
     # end of stream: both applications close
+    late_attach = []
     for d in (0, 1):
         closed_by_app[d] = True
         conns[d].close()
+        if conns[d]._consumer is None and rng.random() < 0.4:
+            # an application that (re)attaches a sized consumer although it has just closed: it must be told at once,
+            # and the connection's own end must not trip over it
+            try:
+                la = conns[d].connectConsumer(RecordingConsumer(), expected=10)
+                late_attach.append(Result(la))
+            except Exception as e:
+                viol_early.append({"key": "C06/consumer-after-close-raises/" + type(e).__name__, "msg": repr(e)[:200], "witness": {"spec": spec}})
     sch.drain(30.0, 5000)
+    for la in late_attach:
+        if not la.done:
+            viol_early.append({"key": "C06/consumer-deferred-pending", "msg": "connectConsumer(expected=10) after close(): the Deferred neither fired nor failed", "witness": {"spec": spec}})
+    from ..monitors import MON
+    for e in list(world.escapes) + list(MON.errors):
+        if "transit.py" in str(e) and "AlreadyCalledError" in str(e):     # (an exception out of dataReceived on a tampered frame is how the connection gets dropped)
+            viol_early.append({"key": "C06/internal-error/" + str(e[0] if e in MON.errors else e[3]) + "/" + str(e[-1])[-40:].replace(" ", ""), "msg": str(e)[:300], "witness": {"spec": spec}})
+            break
     world.finish()
 
-    viol = []
+    viol = list(viol_early)
 
     def surfaced(d):
         if consumers[d] == "file":
@@ -269,7 +294,8 @@ def run_case(spec):
                       [len(x) for x in plans[0]][:10], [len(x) for x in plans[1]][:10], sch.tiny_budget]
     return {"violations": viol, "nontrivial": nontrivial,
             "counters": {"records_surfaced": total_surfaced, "tampers_fed": tampers_fed,
-                         "clean_complete": int(clean and not viol), "idle_sessions": idled, "reads_issued_on_dropped_connection": sum(len(plans[d]) for d in (0, 1) if modes[d] == "late" and not getattr(conns[1 - d].transport, "connected", 1)) if tamper else 0, "partial_consumers": sum(1 for x in partial if x is not None), "records_sent": sent[0] + sent[1],
+                         "clean_complete": int(clean and not viol), "idle_sessions": idled, "reads_given_up": readers[0].given_up + readers[1].given_up, "consumers_attached_after_close": len(late_attach),
+                         "reads_reissued_from_errback": readers[0].retried + readers[1].retried, "false_consumers": sum(isinstance(c, QueueLikeConsumer) for c in consumers), "reads_issued_on_dropped_connection": sum(len(plans[d]) for d in (0, 1) if modes[d] == "late" and not getattr(conns[1 - d].transport, "connected", 1)) if tamper else 0, "partial_consumers": sum(1 for x in partial if x is not None), "records_sent": sent[0] + sent[1],
                          "bytes": sum(len(x) for p in plans for x in p), "steps": world.step,
                          **{"mode_" + m: 1 for m in modes}},
             "sample": {"spec": spec, "modes": modes, "sizes0": [len(x) for x in plans[0]][:12], "sizes1": [len(x) for x in plans[1]][:12],
